@@ -65,6 +65,9 @@ def exec_block(self, stmts, st, frame):
                 st.env[name] = Num(zero=True, shape=arr.shape, cplx=arr.cplx, taint=frozenset())
                 st.env[name].q = 'any'
                 _keep_identity(st.env[name], arr)
+                if arr.cover is not None and arr.shape is not None and len(arr.shape) == 1 and arr.shape[0] is not None:
+                    from . import cover as CV
+                    st.env[name].cover = CV.whole(arr.shape[0], 'zero')     # every piece is rewritten by the statements that follow
         st = self.exec_stmt(s, st, frame)
     return st
 
@@ -169,6 +172,13 @@ def _exec(self, s, st, frame):
             self.in_assert -= 1
         if self.truth(c) is False:
             return None
+        if self.truth(c) is None:
+            # `assert t` read as `if t: pass else: raise` for the admission rule
+            cm = {id(x_): self.cmp_affs[id(x_)] for x_ in ast.walk(s.test) if id(x_) in self.cmp_affs}
+            if cm:
+                fake = ast.If(test=s.test, body=[ast.Pass()], orelse=[ast.Raise(exc=None, cause=None)])
+                ast.copy_location(fake, s)
+                self.events.append(('guard-raise', fake, 'orelse', cm, self.cur.qname if self.cur else ''))
         return st
     if isinstance(s, (ast.Pass, ast.Global, ast.Nonlocal, ast.Delete)):
         return st
@@ -310,6 +320,8 @@ def store_subscript(self, t, v, st, node):
         else:
             if base.cplx is False and nv.cplx is True and not nv.rv and not nv.zero:
                 self.conflict('store', 'dtype', 'a complex value is stored into a real array: its imaginary part is discarded', node)
+            if base.intdt and getattr(nv, 'divd', False):
+                self.events.append(('int-store', node, self.cur.qname if self.cur else ''))
             key = normalise(t.value)
             # A[:] = v overwrites every element (numpy raises unless v has the same length or broadcasts)
             whole_ = isinstance(idx, SliceV) and idx.lo is None and idx.hi is None and idx.step is None
@@ -330,6 +342,22 @@ def store_subscript(self, t, v, st, node):
                 new.rv = True if nv.rv and False else None
             new.nonneg = (b0.nonneg or b0.zero) and nv.nonneg
             new.role = base.role
+            if base.cover is not None and base.shape is not None and len(base.shape) == 1 and base.shape[0] is not None:
+                # what the buffer holds piece by piece (cover.py): slice stores with affine bounds, unit step
+                from . import cover as CV
+                from .prims import _int_aff as _ia
+                kind_ = 'zero' if (nv.zero or (isinstance(v, Const) and v.v == 0)) else 'val'
+                if whole_:
+                    new.cover = CV.whole(base.shape[0], kind_)
+                elif isinstance(idx, SliceV) and idx.step is None:
+                    lo_ = Aff(0) if idx.lo is None else _ia(idx.lo)
+                    hi_ = base.shape[0] if idx.hi is None else _ia(idx.hi)
+                    ok_ = lo_ is not None and hi_ is not None and lo_.nonneg() and hi_.nonneg()
+                    new.cover = CV.store(base.cover, lo_, hi_, kind_, base.shape[0]) if ok_ else None
+                elif not isinstance(idx, (SliceV, Tup)) and _asint(idx) is not None and _asint(idx).a is not None and _asint(idx).a.nonneg():
+                    new.cover = CV.store(base.cover, _asint(idx).a, _asint(idx).a + 1, kind_, base.shape[0])
+                else:
+                    new.cover = None
             if self.d4:
                 from . import charge as Q
                 from . import segmap
